@@ -233,6 +233,7 @@ func (w *Writer) Size() int64 {
 }
 
 func (w *Writer) Sync() error {
+	verifhook.FS("fsync-begin", "index.Writer.Sync", w.path, "")
 	if err := w.f.Sync(); err != nil {
 		return fmt.Errorf("write index sync: %w", err)
 	}
